@@ -250,6 +250,16 @@ def main() -> int:
                     if n <= 2:
                         pinfos.append("/".join(t))
                         pinfos.append("//" + "/".join(t) + "/")
+            # absolute spellings of files outside (and inside) the static folder, behind 1-3 leading slashes
+            outside_abs = [str(static.parent / "static_sib" / "secret.txt"), str(static.parent / f"secret_{MARK}.txt"),
+                           str(static / "index.html"), str(static / "js" / "app.js"), str(static.parent / "static_sib")]
+            for a in outside_abs:
+                for pre in ("", "/", "//", "/.", "/./", "/js/..", "/js/../.."):
+                    for suf in ("", "/", "/."):
+                        pinfos.append(pre + a + suf)
+                pinfos.append("//" + a.lstrip("/").replace("/", "//"))
+                pinfos.append("//" + a.lstrip("/").replace("/", "/./"))
+            pinfos = list(dict.fromkeys(pinfos))
             gm = coq_eval(HEADER, [f"show_get {coq_string(str(static))} {coq_string(p)}" for p in pinfos], shard=800)
             for p, m in zip(pinfos, gm):
                 status, raw = app.request("GET", p)
